@@ -55,7 +55,7 @@ def main():
     ap = argparse.ArgumentParser(); ap.add_argument("prop"); ap.add_argument("--seed", type=int, default=1); ap.add_argument("--n", type=int, default=200)
     ap.add_argument("--keep", default=""); ap.add_argument("--dump", type=int, default=3)
     a = ap.parse_args()
-    hb = vlib.harness_bin(); drv = os.path.join(vlib.BUILD, "ocaml", "driver")
+    hb = os.environ.get("VERIF_HB") or vlib.harness_bin(); drv = os.path.join(vlib.BUILD, "ocaml", "driver")
     rc, out = vlib.sh([hb, "gen", a.prop, "--seed", str(a.seed), "--n", str(a.n)], timeout=600)
     cases = vlib.split_cases(out)
     res = vlib.run_sharded("%s run %s" % (hb, a.prop), cases, shards=8, cwd=vlib.BUILD)
